@@ -330,7 +330,16 @@ package syncer
 //@   loop 0 invariant names_fit: len(dbiMsg.name) <= 511 && len(dbiMsg.transform) <= 64
 //@   at_call snapshot.(*DBI).SetName#0 assert original_name: arg1 == origDBIName
 //@   at_call snapshot.(*DBI).SetTransform#0 assert transform_iff_dupsort: isDupSort
-//@   at_call snapshot.(*DBI).SetFlags#0 assert original_flags: arg1 == uint64(dbiFlags) && iff(isDupSort, dbiFlags & 4 != 0)
+//@   after_call lmdb.(*Txn).OpenDBI#0 ghost loc_dbi := uint64(ret0)
+//@   at_call lmdb.(*Txn).OpenDBI#0 assert opens_the_dbi_to_dump: arg1 == dbiName
+//@   at_call lmdb.(*Txn).OpenDBI#1 assert opens_the_original_for_flags: arg1 == origDBIName
+//@   after_call lmdb.(*Txn).OpenDBI#1 ghost loc_orig := uint64(ret0)
+//@   at_call lmdb.(*Txn).Flags#0 assert flags_of_the_original: uint64(arg1) == ghost_loc_orig
+//@   at_call lmdb.(*Txn).Flags#1 assert flags_of_the_dumped_dbi_when_it_is_the_original: uint64(arg1) == ghost_loc_dbi && dbiName == origDBIName
+//@   after_call lmdb.(*Txn).Flags#0 ghost loc_flags := uint64(ret0)
+//@   after_call lmdb.(*Txn).Flags#1 ghost loc_flags := uint64(ret0)
+//@   at_call snapshot.(*DBI).SetFlags#0 assert original_flags: arg1 == ghost_loc_flags && iff(isDupSort, ghost_loc_flags & 4 != 0)
+//@   at_call lmdb.(*Txn).OpenCursor#0 assert cursor_on_the_dumped_dbi: uint64(arg1) == ghost_loc_dbi
 //@   at_call snapshot.(*DBI).Append#0 assert key_as_stored: arrayOf(arg1.Key) == ghost_loc_keyArr && offsetOf(arg1.Key) == ghost_loc_keyOff && len(arg1.Key) == ghost_loc_keyLen
 //@   at_call snapshot.(*DBI).Append#0 assert header_split: !rawValues ==> arg1.TimestampNano == ghost_loc_ts && arg1.Flags == uint32(ghost_loc_fl & 1)
 //@   at_call snapshot.(*DBI).Append#0 assert value_after_whole_header: !rawValues ==> arrayOf(arg1.Value) == ghost_loc_valArr && offsetOf(arg1.Value) == ghost_loc_valOff + 24 + 8*ghost_loc_ne && len(arg1.Value) == ghost_loc_valLen - 24 - 8*ghost_loc_ne
